@@ -895,6 +895,9 @@ void disasm_range_riscv(
       printf("%d-%d\n", cycles_min, cycles_max);
     }
 
+    // An undecodable opcode has no length: step over it instead of going backwards.
+    if (count < 1) { count = 2; }
+
     start = start + count;
   }
 }
